@@ -295,14 +295,19 @@ def dec16Loop : Nat → Nat → Acc → Acc
     let r := decode [h % 256, h / 256]
     dec16Loop cnt (h + 1) { h := mixDec a.h r, n := if isOk r then a.n + 1 else a.n }
 
-/-! ### bulk specification decoding.  For a fixed first halfword only the rows whose first 16 diagram
-positions fit it can match, so the table is filtered once per first halfword (same result as
+/-! ### bulk specification decoding.  For a fixed first halfword only the rows whose fixed bits in the first
+halfword fit it can match, so the table is filtered once per first halfword (same result as
 `Arm.decode`, which the harness cross-checks on single requests). -/
 
+/-- can the fixed run `(p, l, v)` agree with some word whose first halfword is `h0`? -/
+def segFitsHigh (h0 : Nat) : Nat × Nat × Nat → Bool
+  | (p, l, v) =>
+    if p ≥ 16 then h0 / 2 ^ (p - 16) % 2 ^ l == v
+    else if p + l ≤ 16 then true
+    else h0 % 2 ^ (p + l - 16) == v / 2 ^ (16 - p)
+
 def rows32For (h0 : Nat) : List Arm.Row :=
-  Arm.table.filter fun rw =>
-    let cs := rw.pat.toList.filter (· ≠ ' ')
-    cs.length = 32 && Arm.fits h0 (cs.take 16) 16
+  Arm.table.filter fun rw => rw.n == 32 && rw.fixed.all (segFitsHigh h0)
 
 def spec32Inner (rows : List Arm.Row) (h0 : Nat) : Nat → Nat → Acc → Acc
   | 0, _, a => a
@@ -366,7 +371,7 @@ def wordsFitting : List Char → List Nat
   | [] => [0]
   | c :: cs =>
     let rest := wordsFitting cs
-    let n := Arm.width cs
+    let n := (cs.filter (· ≠ ' ')).length
     if c = ' ' then rest
     else if c = '0' then rest
     else if c = '1' then rest.map (· + 2 ^ n)
@@ -395,11 +400,11 @@ def specenc (i : Instr) : List (List Nat) :=
           substField 'i' (off / 4096 % 1024).toNat (substField 'L' (off / 2 % 2048).toNat cs0)
         else cs0
       | _ => cs0
-    let n := Arm.width cs
+    let n := (cs.filter (· ≠ ' ')).length
     -- a row builds one constructor (every `ins` of the table is `fun f => .ctor …`): rows of another
     -- constructor are skipped after looking at the instruction of their first fitting word
     let sameCtor := match (wordsFitting (cs.map fun c => if c = ' ' ∨ c = '0' ∨ c = '1' then c else '0')).head? with
-      | some w0 => (fieldsOf (rw.ins fun c => Arm.field w0 c cs n 0)).1 == (fieldsOf i).1
+      | some w0 => (fieldsOf (rw.ins (Arm.fieldOf w0 rw.fields))).1 == (fieldsOf i).1
       | none => false
     if freeBits cs > 16 ∨ !sameCtor then acc
     else
